@@ -51,6 +51,16 @@ def not_ready():
         raise NotReadyError()
 
 
+class Readiness:
+    # Bumped whenever something a speculative attempt may have been waiting for appears:
+    # a symbol is defined or exported, a promise is settled, a file is compiled to the end
+    epoch = 0
+
+
+def readiness_changed():
+    Readiness.epoch += 1
+
+
 class BaseDeferredMetaclass(type):
     def __getitem__(cls, typ):
         if not isinstance(typ, type):
@@ -161,6 +171,7 @@ class Deferred(BaseDeferred):
         self.value = None
         self.settled = False
         self.name = name or f"d{Deferred.next_instance_id}"
+        self.not_ready_epoch = None
         Deferred.next_instance_id += 1
 
     @classmethod
@@ -190,7 +201,15 @@ class Deferred(BaseDeferred):
         if self.settled:
             return self.value
         else:
-            self.value = self.fn()
+            if try_compute.depth > 0 and self.not_ready_epoch == Readiness.epoch:
+                # Nothing has appeared since the last speculative attempt gave up: do not
+                # repeat it (and, recursively, everything it depends on)
+                raise NotReadyError()
+            try:
+                self.value = self.fn()
+            except NotReadyError:
+                self.not_ready_epoch = Readiness.epoch
+                raise
             self.settled = True
             return self.value
 
@@ -414,6 +433,7 @@ class Promise(BaseDeferred):
         assert not self.settled
         self.value = value
         self.settled = True
+        readiness_changed()
 
     def __repr__(self):
         return self.name
